@@ -1466,4 +1466,80 @@ theorem int_axis_refused {k n : Int} (hk : k < -n ∨ n ≤ k) : axisOfItem (som
       simp [this]
   simp only [axisOfItem, optItemSlice, itemSlice, hc, bind, Except.bind]
 
+/-! ## negative step down to index 0 -/
+
+theorem down_item (k s : Int) (hk : 0 ≤ k) (hs : 0 < s) :
+    getitemAxisItem k (-1) (-s) = .ok (k, -s, k / s + 1) := by
+  unfold getitemAxisItem
+  have a : (-1 - k : Int) < 0 := by omega
+  have b : ¬ (-1 - k : Int) = 0 := by omega
+  have c : -s < 0 := by omega
+  have d : (if (-1 - k : Int) < 0 then -(-1 - k) else -1 - k) - 1 = k := by rw [if_pos a]; ring
+  have e : (if -s < 0 then - -s else -s) = s := by rw [if_pos c]; ring
+  simp only [d, e, fdiv_pos _ _ hs]
+  have ns : ¬ s ≤ 0 := by omega
+  simp [a, b, c, hs, ns]
+
+/-- **negative step ending at index 0**: `v[k::-s]` (stop omitted) selects `k, k-s, …` down to the last index `≥ 0` -/
+theorem reverse_to_zero_axis {k s n : Int} (hk : 0 ≤ k ∧ k < n) (hs : 0 < s) :
+    axisOfItem (some (Item.slice (some k) none (some (-s)))) n = .ok ⟨k, -s, k / s + 1, k / s + 1⟩ := by
+  have hc : checkSlice (some k) none n = .ok 0 := by
+    unfold checkSlice
+    have h1 : ¬ k < -n := by omega
+    have h2 : ¬ k ≥ n := by omega
+    simp [h1, h2]
+  have hsl : sliceIndices (some k) none (some (-s)) n = .ok (k, -1, -s) := by
+    simp only [sliceIndices]
+    have h0 : ¬ (-s = 0) := by omega
+    have h1 : -s < 0 := by omega
+    have h2 : ¬ k < 0 := by omega
+    have h3 : min k (n - 1) = k := by omega
+    have ns : ¬ s ≤ 0 := by omega
+    simp [h0, h1, h2, h3, hs, ns]
+  have hl : sliceLen k (-1) (-s) = k / s + 1 := by
+    simp only [sliceLen]
+    have h1 : ¬ (-s > 0) := by omega
+    have h2 : -s < 0 := by omega
+    have h3 : (-1 : Int) < k := by omega
+    have h4 : (k - -1 - 1) = k := by ring
+    have ns : ¬ s ≤ 0 := by omega
+    have ns2 : ¬ s < 0 := by omega
+    simp [h1, h2, h3, h4, hs, ns, ns2]
+  simp only [axisOfItem, optItemSlice, itemSlice, hc, bind, Except.bind, pure, Except.pure, axisOfSlice, hsl,
+    down_item k s hk.1 hs, hl]
+
+/-- the same with the explicit stop `-n-1` (the only way to write "down to and including index 0" with a stop) -/
+theorem reverse_to_zero_axis_explicit {k s n : Int} (hk : 0 ≤ k ∧ k < n) (hs : 0 < s) :
+    axisOfItem (some (Item.slice (some k) (some (-n - 1)) (some (-s)))) n = .ok ⟨k, -s, k / s + 1, k / s + 1⟩ := by
+  have hc : checkSlice (some k) (some (-n - 1)) n = .ok 0 := by
+    unfold checkSlice
+    have h1 : ¬ k < -n := by omega
+    have h2 : ¬ k ≥ n := by omega
+    have h3 : ¬ (-n - 1 < -n - 1) := by omega
+    have h4 : ¬ (-n - 1 > n) := by omega
+    have ns : ¬ s ≤ 0 := by omega
+    have ns2 : ¬ s < 0 := by omega
+    simp [h1, h2, h3, h4, hs, ns, ns2]
+  have hsl : sliceIndices (some k) (some (-n - 1)) (some (-s)) n = .ok (k, -1, -s) := by
+    simp only [sliceIndices]
+    have h0 : ¬ (-s = 0) := by omega
+    have h1 : -s < 0 := by omega
+    have h2 : ¬ k < 0 := by omega
+    have h3 : min k (n - 1) = k := by omega
+    have h4 : -n - 1 < 0 := by omega
+    have h5 : max (-n - 1 + n) (-1) = -1 := by omega
+    have ns : ¬ s ≤ 0 := by omega
+    simp [h0, h1, h2, h3, h4, h5, hs, ns]
+  have hl : sliceLen k (-1) (-s) = k / s + 1 := by
+    simp only [sliceLen]
+    have h1 : ¬ (-s > 0) := by omega
+    have h2 : -s < 0 := by omega
+    have h3 : (-1 : Int) < k := by omega
+    have h4 : (k - -1 - 1) = k := by ring
+    have ns : ¬ s ≤ 0 := by omega
+    have ns2 : ¬ s < 0 := by omega
+    simp [h1, h2, h3, h4, hs, ns, ns2]
+  simp only [axisOfItem, optItemSlice, itemSlice, hc, bind, Except.bind, pure, Except.pure, axisOfSlice, hsl,
+    down_item k s hk.1 hs, hl]
+
 end HdVerif.VolLemmas
